@@ -129,6 +129,160 @@ async fn run_faulted<const N: usize>(cfg: HCfg, beh: BehaviourJ, dir: std::path:
     Ok((lines, hit_any, quarantined))
 }
 
+/// C14: the future of step `idx` is polled `k` times (letting background work advance between
+/// polls) and then dropped.  Returns the TraceStore lines, whether the operation completed within
+/// k polls, and direct findings (blob files that no longer parse after the final restart).
+async fn run_cancelled<const N: usize>(cfg: HCfg, beh: BehaviourJ, dir: std::path::PathBuf, nkeys: u64, idx: usize, k: usize)
+    -> Result<(Vec<serde_json::Value>, bool, Vec<String>), String> {
+    use bytes::Bytes;
+    use pearl::BlobRecordTimestamp;
+    let _ = std::fs::remove_dir_all(&dir);
+    std::fs::create_dir_all(&dir).map_err(|e| e.to_string())?;
+    let mut d = Driver::<N>::new(cfg, dir.clone(), nkeys);
+    d.open(false).await?;
+    let mut lines = vec![json!({"ev": "reset", "fault": format!("cancel step {} after {} polls", idx, k)})];
+    let mut vid = 0u64;
+    let mut completed = false;
+    let mut steps = beh.steps.clone();
+    steps.push(StepJ { act: ActJ { a: "restart".into(), k: 0, ts: 0, m: 0, f: 1, s: "keep".into() }, ret: res("ok", 0), obs: None });
+    for (i, st) in steps.iter().enumerate() {
+        if st.act.a == "write" || st.act.a == "delete" { vid += 1; }
+        if i != idx {
+            let got = d.exec(&st.act, vid).await?;
+            let obs = d.observe().await;
+            lines.push(json!({"ev": "step", "a": st.act.a, "k": st.act.k, "ts": st.act.ts, "m": st.act.m, "f": st.act.f, "s": st.act.s,
+                "rt": got.t, "rn": got.n, "mode": "normal", "has_obs": 1, "obs": strip_records(obs)}));
+            continue;
+        }
+        // the cancelled call
+        let a = st.act.clone();
+        let key = model_key::<N>(a.k);
+        let ts = BlobRecordTimestamp::new(a.ts);
+        let data = payload(vid, size_of_class(&a.s, N, a.m, vid));
+        if a.a == "write" {
+            d.payloads.insert(vid, data.clone());
+        }
+        let outcome: Option<ResJ>;
+        {
+            let stg = d.storage.as_ref().expect("open");
+            let fut = async {
+                match a.a.as_str() {
+                    "write" => { let r = if a.m == 0 { stg.write(&key, Bytes::from(data), ts).await } else { stg.write_with(&key, Bytes::from(data), ts, meta_of(a.m)).await }; if r.is_ok() { res("ok", 0) } else { res("err", 0) } }
+                    "delete" => { let r = if a.m == 0 { stg.delete(&key, ts, a.f == 1).await } else { stg.delete_with(&key, ts, meta_of(a.m), a.f == 1).await }; match r { Ok(n) => res("cnt", n as i64), Err(_) => res("err", 0) } }
+                    "close_active" => if stg.try_close_active_blob().await.is_ok() { res("ok", 0) } else { res("err", 0) },
+                    "create_active" => if stg.try_create_active_blob().await.is_ok() { res("ok", 0) } else { res("err", 0) },
+                    "restore_active" => if stg.try_restore_active_blob().await.is_ok() { res("ok", 0) } else { res("err", 0) },
+                    "fsync" => if stg.fsyncdata().await.is_ok() { res("ok", 0) } else { res("err", 0) },
+                    _ => { stg.force_update_active_blob(|_| true).await; res("ok", 0) }
+                }
+            };
+            let mut fut = Box::pin(fut);
+            let mut out = None;
+            for _ in 0..k {
+                match futures::poll!(fut.as_mut()) {
+                    std::task::Poll::Ready(r) => { out = Some(r); break; }
+                    std::task::Poll::Pending => {
+                        // let blocking closures / other tasks advance to the next suspension point
+                        tokio::time::sleep(std::time::Duration::from_micros(400)).await;
+                    }
+                }
+            }
+            outcome = out;
+            drop(fut);
+        }
+        completed = outcome.is_some();
+        wait_quiescent(true, QUIESCE_DEADLINE).await?;
+        let obs = d.observe().await;
+        let (mode, rt, rn) = match &outcome { Some(r) => ("normal", r.t.clone(), r.n), None => ("maybe", "?".to_string(), 0) };
+        lines.push(json!({"ev": "step", "a": a.a, "k": a.k, "ts": a.ts, "m": a.m, "f": a.f, "s": a.s,
+            "rt": rt, "rn": rn, "mode": mode, "has_obs": 1, "obs": strip_records(obs)}));
+    }
+    // every blob file still parses completely on the next start
+    let mut findings = Vec::new();
+    let corrupted = d.storage.as_ref().map(|s| s.corrupted_blobs_count()).unwrap_or(0);
+    if corrupted > 0 {
+        findings.push(format!("{} blob file(s) quarantined at the start after the cancellation", corrupted));
+    }
+    for (id, is_index, p) in list_files(&dir) {
+        if !is_index {
+            if let Err(e) = pearl::tools::validate_blob(&p) { findings.push(format!("blob {} does not parse: {:#}", id, e)); }
+        }
+    }
+    let _ = d.shutdown(true).await;
+    let _ = std::fs::remove_dir_all(&dir);
+    Ok((lines, completed, findings))
+}
+
+/// accounting is not part of "entirely or not at all" (DESIGN 6): only the data queries are judged
+fn strip_records(mut obs: serde_json::Value) -> serde_json::Value {
+    obs["records"] = json!(-1);
+    obs
+}
+
+fn cancel_main(cfg: HCfg, nkeys: u64, out_path: String) {
+    let rt = build_runtime(&cfg.rt);
+    let root = scratch_root().join(format!("cancel-{}", std::process::id()));
+    let mut w = std::io::BufWriter::new(std::fs::File::create(&out_path).expect("trace file"));
+    let max_k: usize = arg("--max-polls").and_then(|s| s.parse().ok()).unwrap_or(24);
+    let stdin = std::io::stdin();
+    let (mut execs, mut errors) = (0u64, 0u64);
+    let mut by_op: std::collections::BTreeMap<String, u64> = Default::default();
+    let mut max_polls_seen: std::collections::BTreeMap<String, usize> = Default::default();
+    let mut sample = None;
+    for line in stdin.lock().lines() {
+        let line = match line { Ok(l) => l, Err(_) => break };
+        let text = match tlc_line_payload(&line, "BEHAVIOUR") { Some(t) => t, None => continue };
+        let beh: BehaviourJ = match serde_json::from_str(&text) { Ok(b) => b, Err(_) => continue };
+        for idx in 0..beh.steps.len() {
+            let op = beh.steps[idx].act.a.clone();
+            if !matches!(op.as_str(), "write" | "delete" | "close_active" | "create_active" | "restore_active" | "fsync" | "force_update") { continue; }
+            for k in 1..=max_k {
+                let dir = root.join("b");
+                let (c2, b2) = (cfg.clone(), beh.clone());
+                let res = rt.block_on(async move {
+                    tokio::spawn(async move {
+                        match c2.ks { 8 => run_cancelled::<8>(c2, b2, dir, nkeys, idx, k).await, _ => run_cancelled::<4>(c2, b2, dir, nkeys, idx, k).await }
+                    }).await
+                });
+                let sig: Vec<String> = beh.steps.iter().map(|s| s.act.a.clone()).collect();
+                match res {
+                    Ok(Ok((lines, completed, findings))) => {
+                        execs += 1;
+                        *by_op.entry(op.clone()).or_default() += 1;
+                        if sample.is_none() { sample = Some(json!({"cancelled_step": idx, "polls": k, "steps": sig})); }
+                        use std::io::Write;
+                        for l in lines { let _ = writeln!(w, "{}", l); }
+                        for f in findings {
+                            println!("MISMATCH {}", json!({"cfg": cfg, "behaviour": beh, "mismatches": [{"step": idx, "action": op, "kind": "cancel_files", "expected": "every blob file parses at the next start", "got": f}], "log": [], "sig": sig, "fault": format!("cancel step {} ({}) after {} polls", idx, op, k)}));
+                        }
+                        if completed {
+                            let e = max_polls_seen.entry(op.clone()).or_default();
+                            if k > *e { *e = k; }
+                            break;     // more polls change nothing
+                        }
+                    }
+                    Ok(Err(e)) => {
+                        errors += 1;
+                        println!("MISMATCH {}", json!({"cfg": cfg, "behaviour": beh, "mismatches": [{"step": idx, "action": op, "kind": "cancel_error", "expected": "later operations succeed", "got": e}], "log": [], "sig": sig, "fault": format!("cancel step {} ({}) after {} polls", idx, op, k)}));
+                        reset_probe_after_dead_worker();
+                        break;
+                    }
+                    Err(j) => {
+                        errors += 1;
+                        let msg = if j.is_panic() { let p = j.into_panic(); p.downcast_ref::<String>().cloned().or_else(|| p.downcast_ref::<&str>().map(|s| s.to_string())).unwrap_or("panic".into()) } else { "cancelled".into() };
+                        println!("MISMATCH {}", json!({"cfg": cfg, "behaviour": beh, "mismatches": [{"step": idx, "action": op, "kind": "panic", "expected": "no panic", "got": msg}], "log": [], "sig": sig, "fault": format!("cancel step {} ({}) after {} polls", idx, op, k)}));
+                        reset_probe_after_dead_worker();
+                        break;
+                    }
+                }
+            }
+        }
+    }
+    let _ = std::fs::remove_dir_all(&root);
+    println!("RESULT {}", json!({"executed": execs, "errors": errors, "by_plan": by_op, "polls_to_complete": max_polls_seen, "sample": sample,
+        "lines": 0, "distinct": execs, "steps": 0, "failed": errors, "tool_errors": 0}));
+}
+
 fn fault_plans(dense: bool) -> Vec<tap::FaultPlan> {
     let mut v = Vec::new();
     let nths: Vec<u64> = if dense { (1..=8).collect() } else { vec![1, 2, 3, 5] };
@@ -203,6 +357,11 @@ fn fault_main(cfg: HCfg, nkeys: u64, out_path: String) {
 }
 
 fn main() {
+    if let Some(out) = arg("--cancel-out") {
+        let cfg: HCfg = serde_json::from_str(&arg("--cfg").unwrap_or("{}".into())).expect("cfg json");
+        let nkeys: u64 = arg("--nkeys").and_then(|s| s.parse().ok()).unwrap_or(2);
+        return cancel_main(cfg, nkeys, out);
+    }
     if let Some(out) = arg("--faults-out") {
         let cfg: HCfg = serde_json::from_str(&arg("--cfg").unwrap_or("{}".into())).expect("cfg json");
         let nkeys: u64 = arg("--nkeys").and_then(|s| s.parse().ok()).unwrap_or(2);
